@@ -200,6 +200,8 @@ class SMSimfile(BaseSimfile):
             key = param.key.upper()
             if key == "NOTES":
                 self.charts.append(SMChart.from_msd(param.components[1:]))
+            elif param.value is None:
+                self[key] = None
             elif key in BaseSimfile.MULTI_VALUE_PROPERTIES:
                 self[key] = ":".join(param.components[1:])
             else:
